@@ -1,6 +1,6 @@
 /* Conformance driver for C13 (network parsers on hostile packets).
  *
- *   c13_drv <heap|ghi|glo>   < cases   > answers
+ *   c13_drv <heap|ghi|glo> [max-crashes]   < cases   > answers
  *
  * One case per stdin line:  "<op> <hex-input|-> [int args...]".  For every case the driver places
  * the input (and every output buffer) in an exact-size block, calls the real parser(s) of /repo
@@ -13,7 +13,9 @@
  * and the library function it is inside in shared memory.  When the worker dies (sanitizer
  * abort, SIGSEGV on a guard page, alarm() watchdog) the parent prints
  *   "X <idx> fn=<function> st=<sig|exit code>"  after the worker's report and forks a new
- * worker for the remaining cases.  Answers are "R <idx> <op> k=v ...".
+ * worker for the remaining cases ("T <idx>": crash budget used up, cases from idx on were not run).
+ * Answers are "R <idx> <op> k=v ...".  Ops with several library calls take a phase argument so that one
+ * faulting call does not hide the calls after it.
  */
 #include <sys/param.h>
 #include <sys/types.h>
@@ -27,6 +29,7 @@
 #include <signal.h>
 #include <unistd.h>
 #include <ucontext.h>
+#include <setjmp.h>
 
 #include "utils/macro.h"
 #include "utils/mem_utils.h"
@@ -98,6 +101,7 @@ static uint8_t *xdup(int s, const uint8_t *src, size_t n) {
 }
 
 /* ------------------------------------------------------------------ fault reporting (guard builds) */
+static sigjmp_buf fault_jb; static volatile int fault_jb_armed; static char fault_msg[400];
 static void on_fault(int sig, siginfo_t *si, void *uc_) {
 	char msg[400]; const char *where = "wild"; long off = 0; int acc = 'r', n;
 #if defined(__x86_64__)
@@ -116,6 +120,12 @@ static void on_fault(int sig, siginfo_t *si, void *uc_) {
 		}
 	}
 	n = snprintf(msg, sizeof(msg), "\nFAULT sig=%d acc=%c where=%s off=%ld fn=%s\n", sig, acc, where, off, shm->fn);
+	/* guard builds recover in-process (no locks are held inside the parsers); anything else ends the worker */
+	if (fault_jb_armed && mode != M_HEAP && strcmp(where, "wild") != 0) {
+		memcpy(fault_msg, msg, sizeof(fault_msg));
+		fault_jb_armed = 0;
+		siglongjmp(fault_jb, 1);
+	}
 	if (n > 0) (void)!write(1, msg, (size_t)n);
 	_exit(99);
 }
@@ -151,31 +161,38 @@ static uint8_t *parse_hex(const char *s, size_t *n_ret) {
 static void puthex(const uint8_t *p, size_t n) { if (!n) { fputs("-", stdout); return; } for (size_t i = 0; i < n; i++) printf("%02x", p[i]); }
 
 /* ------------------------------------------------------------------ DNS */
+/* cap > 0: dns_msg_sequence_of_labels2name into a cap byte buffer; cap == 0: ..._get_name_len */
 static void op_dns_name(const uint8_t *in, size_t n, long off, long cap) {
 	uint8_t *m = xdup(0, in, n);
-	uint8_t *name = xbuf(1, (size_t)cap);
-	size_t len = (size_t)-1, len2 = (size_t)-1; int rc, rc2;
-	FN("dns_msg_sequence_of_labels2name");
-	rc = dns_msg_sequence_of_labels2name((dns_hdr_p)m, n, (size_t)off, name, (size_t)cap, &len);
-	if (rc == 0) { if (len >= (size_t)cap) span_fail("dns_msg_sequence_of_labels2name", "name_len"); else if (name[len] != 0) span_fail("dns_msg_sequence_of_labels2name", "no-NUL"); }
-	FN("dns_msg_sequence_of_labels_get_name_len");
-	rc2 = dns_msg_sequence_of_labels_get_name_len((dns_hdr_p)m, n, (size_t)off, &len2);
-	printf(" rc=%d len=%zd name=", rc, (ssize_t)len);
-	puthex(name, (rc == 0 && len < (size_t)cap) ? len : 0);
-	printf(" rc2=%d len2=%zd", rc2, (ssize_t)len2);
+	size_t len = (size_t)-1; int rc;
+	if (cap > 0) {
+		uint8_t *name = xbuf(1, (size_t)cap);
+		FN("dns_msg_sequence_of_labels2name");
+		rc = dns_msg_sequence_of_labels2name((dns_hdr_p)m, n, (size_t)off, name, (size_t)cap, &len);
+		if (rc == 0) { if (len >= (size_t)cap) span_fail("dns_msg_sequence_of_labels2name", "name_len"); else if (name[len] != 0) span_fail("dns_msg_sequence_of_labels2name", "no-NUL"); }
+		printf(" rc=%d len=%zd name=", rc, (ssize_t)len);
+		puthex(name, (rc == 0 && len < (size_t)cap) ? len : 0);
+	} else {
+		FN("dns_msg_sequence_of_labels_get_name_len");
+		rc = dns_msg_sequence_of_labels_get_name_len((dns_hdr_p)m, n, (size_t)off, &len);
+		printf(" rc=%d len=%zd", rc, (ssize_t)len);
+	}
 }
-static void op_dns_lbl(const uint8_t *in, size_t n) {
+static void op_dns_lbl(const uint8_t *in, size_t n, long ph) {
 	uint8_t *b = xdup(0, in, n);
-	size_t sz = (size_t)-1, nl = (size_t)-1, cap = (n > 1) ? n - 1 : 1; int rc, rc2;
-	uint8_t *name;
-	FN("SequenceOfLabelsGetSize");
-	rc = SequenceOfLabelsGetSize(b, n, &sz);
-	if (rc == 0) chk_le("SequenceOfLabelsGetSize", "name_size", sz, n);
-	name = xbuf(1, cap);
-	FN("SequenceOfLabelsToDomainName");
-	rc2 = SequenceOfLabelsToDomainName(b, n, name, cap, &nl);
-	if (rc2 == 0) chk_le("SequenceOfLabelsToDomainName", "name_len", nl, n);
-	printf(" rc=%d size=%zd rc2=%d", rc, (ssize_t)sz, rc2);
+	size_t sz = (size_t)-1, nl = (size_t)-1, cap = (n > 1) ? n - 1 : 1; int rc;
+	if (ph == 0) {
+		FN("SequenceOfLabelsGetSize");
+		rc = SequenceOfLabelsGetSize(b, n, &sz);
+		if (rc == 0) chk_le("SequenceOfLabelsGetSize", "name_size", sz, n);
+		printf(" rc=%d size=%zd", rc, (ssize_t)sz);
+	} else {
+		uint8_t *name = xbuf(1, cap);
+		FN("SequenceOfLabelsToDomainName");
+		rc = SequenceOfLabelsToDomainName(b, n, name, cap, &nl);
+		if (rc == 0) chk_le("SequenceOfLabelsToDomainName", "name_len", nl, n);
+		printf(" rc=%d", rc);
+	}
 }
 static void dns_follow_rr(uint8_t *m, size_t n, size_t off, size_t *next) {
 	uint8_t *name = xbuf(1, 300); size_t nl = 300, rrs = 0; uint16_t t = 0, c = 0, ds = 0; uint32_t ttl = 0; void *data = NULL; int rc;
@@ -192,9 +209,12 @@ static void dns_follow_q(uint8_t *m, size_t n, size_t off, size_t *next) {
 	if (rc == 0) { chk_le("dns_msg_question_get_data", "question_size", off + qs, n); chk_le("dns_msg_question_get_data", "name_len", nl, 299); }
 	*next = (qs != 0 && off + qs <= n) ? off + qs : 0;
 }
-static void op_dns_msg(const uint8_t *in, size_t n) {
+/* ph 0: dns_msg_info_get; 1: question at 12; 2: RR at 12; 3: everything a resolver does after a successful validation */
+static void op_dns_msg(const uint8_t *in, size_t n, long ph) {
 	uint8_t *m = xdup(0, in, n);
 	size_t qd = 0, an = 0, ns = 0, ar = 0, cnt = 0, msz = 0, nx, off; int rc;
+	if (ph == 1) { if (n >= 12) dns_follow_q(m, n, 12, &nx); printf(" ok=1"); return; }
+	if (ph == 2) { if (n >= 12) dns_follow_rr(m, n, 12, &nx); printf(" ok=1"); return; }
 	FN("dns_msg_info_get");
 	rc = dns_msg_info_get((dns_hdr_p)m, n, &qd, &an, &ns, &ar, &cnt, &msz);
 	if (rc == 0) {
@@ -202,9 +222,7 @@ static void op_dns_msg(const uint8_t *in, size_t n) {
 		if (!(qd == 12 && qd <= an && an <= ns && ns <= ar && ar <= msz)) span_fail("dns_msg_info_get", "section-offsets");
 	}
 	printf(" rc=%d qd=%zu an=%zu ns=%zu ar=%zu cnt=%zu msz=%zu", rc, qd, an, ns, ar, cnt, msz);
-	/* the first record, whatever the header says (a resolver looks at it right after the header) */
-	if (n >= 12) { dns_follow_q(m, n, 12, &nx); dns_follow_rr(m, n, 12, &nx); }
-	if (rc == 0) {
+	if (rc == 0 && ph == 3) {
 		size_t i, k, sz2;
 		FN("dns_msg_size_get");
 		sz2 = dns_msg_size_get((dns_hdr_p)m, n);
@@ -222,7 +240,9 @@ static void op_dns_msg(const uint8_t *in, size_t n) {
 }
 
 /* ------------------------------------------------------------------ RADIUS */
-static void op_rad(const uint8_t *in, size_t n) {
+/* ph 0: radius_pkt_chk only; on accepted packets: 1 attribute access at every attribute, 2 the same at the
+ * end position, 3 find, 4 collect values, 5 message authenticator + verify */
+static void op_rad(const uint8_t *in, size_t n, long ph) {
 	uint8_t *p = xdup(0, in, n);
 	int rc; size_t L = 0, off, nb = 0; static size_t bounds[2100];
 	FN("radius_pkt_chk");
@@ -241,9 +261,12 @@ static void op_rad(const uint8_t *in, size_t n) {
 	}
 	if (off != L) { span_fail("radius_pkt_chk", "accepted-overrun"); return; }
 	bounds[nb++] = L;                                 /* the position after the last attribute */
-	for (size_t i = 0; i < nb; i++) {
+	if (ph == 0) return;
+	for (size_t i = 0; i < nb && ph <= 3; i++) {
 		rad_pkt_attr_p a = NULL; uint8_t t = 0, *d = NULL; size_t dl = 0, o2 = 0; int r;
 		static const uint8_t types[] = { 1, 2, 26, 80, 200 };
+		if ((ph == 1 && i == nb - 1) || (ph == 2 && i != nb - 1)) continue;
+		if (ph == 3) goto find;
 		FN("radius_pkt_attr_get_from_offset");
 		r = radius_pkt_attr_get_from_offset((rad_pkt_hdr_p)p, bounds[i], &a);
 		if (r == 0) { chk_span("radius_pkt_attr_get_from_offset", "attr-hdr", p, L, a, 2);
@@ -251,6 +274,8 @@ static void op_rad(const uint8_t *in, size_t n) {
 		FN("radius_pkt_attr_get_data_ptr");
 		r = radius_pkt_attr_get_data_ptr((rad_pkt_hdr_p)p, bounds[i], &t, &d, &dl);
 		if (r == 0) chk_span("radius_pkt_attr_get_data_ptr", "data", p, L, d, dl);
+		continue;
+find:
 		for (size_t k = 0; k < sizeof(types); k++) {
 			a = NULL; o2 = 0;
 			FN("radius_pkt_attr_find_raw");
@@ -258,7 +283,7 @@ static void op_rad(const uint8_t *in, size_t n) {
 			if (r == 0) { chk_span("radius_pkt_attr_find_raw", "attr", p, L, a, 2); chk_le("radius_pkt_attr_find_raw", "offset", o2 + 2, L); }
 		}
 	}
-	{
+	if (ph == 4) {
 		static const uint8_t types[] = { 1, 2, 80 };
 		for (size_t k = 0; k < sizeof(types); k++) {
 			uint8_t *out = xbuf(1, 40); size_t got = 0;
@@ -267,7 +292,7 @@ static void op_rad(const uint8_t *in, size_t n) {
 			chk_le("radius_pkt_attr_get_data_to_buf", "size", got, 40);
 		}
 	}
-	{
+	if (ph == 5) {
 		size_t o = 0; uint8_t key[1] = { 'k' };
 		FN("radius_pkt_attr_msg_authenticator_chk");
 		radius_pkt_attr_msg_authenticator_chk((rad_pkt_hdr_p)p, 0, key, 1, 0, NULL, &o);
@@ -310,8 +335,22 @@ static void op_http_resp(const uint8_t *in, size_t n) {
 		chk_span("http_parse_resp_line", "reason_phrase", b, n, d.reason_phrase, d.reason_phrase_size); }
 	printf(" rc=%d line=%zu", rc, d.line_size);
 }
-static void op_http_hdr(const uint8_t *in, size_t n) {
+/* ph 0: value search loop + count; 1: http_req_sec_chk; 2: http_hdr_val_remove */
+static void op_http_hdr(const uint8_t *in, size_t n, long ph) {
 	uint8_t *b = xdup(0, in, n), *c1, *c2; size_t off = 0, cnt = 0, iter, newsz = n, removed; int rc = 0, sec;
+	if (ph == 1) {
+		FN("http_req_sec_chk");
+		sec = http_req_sec_chk(b, n, HTTP_REQ_METHOD_GET);
+		printf(" sec=%d", sec); return;
+	}
+	if (ph == 2) {
+		c1 = xdup(1, in, n); c2 = xbuf(2, n);
+		for (size_t i = 0; i < n; i++) c2[i] = (in[i] >= 'A' && in[i] <= 'Z') ? (uint8_t)(in[i] | 32) : in[i];
+		FN("http_hdr_val_remove");
+		removed = http_hdr_val_remove(c1, c2, n, &newsz, (const uint8_t*)"h", 1);
+		chk_le("http_hdr_val_remove", "new_size", newsz, n);
+		printf(" removed=%zu newsz=%zu", removed, newsz); return;
+	}
 	for (iter = 0; iter <= n + 2; iter++) {
 		const uint8_t *v = NULL; size_t vs = 0, nx = 0;
 		FN("http_hdr_val_get_ex");
@@ -325,25 +364,21 @@ static void op_http_hdr(const uint8_t *in, size_t n) {
 	if (iter > n + 2) span_fail("http_hdr_val_get_ex", "no-progress");
 	FN("http_hdr_val_get_count");
 	if (!span_msg[0] && http_hdr_val_get_count(b, n, (const uint8_t*)"h", 1) != cnt) span_fail("http_hdr_val_get_count", "differs");
-	FN("http_req_sec_chk");
-	sec = http_req_sec_chk(b, n, HTTP_REQ_METHOD_GET);
-	c1 = xdup(1, in, n); c2 = xbuf(2, n);
-	for (size_t i = 0; i < n; i++) c2[i] = (in[i] >= 'A' && in[i] <= 'Z') ? (uint8_t)(in[i] | 32) : in[i];
-	FN("http_hdr_val_remove");
-	removed = http_hdr_val_remove(c1, c2, n, &newsz, (const uint8_t*)"h", 1);
-	chk_le("http_hdr_val_remove", "new_size", newsz, n);
-	printf(" cnt=%zu sec=%d removed=%zu newsz=%zu", cnt, sec, removed, newsz);
+	printf(" cnt=%zu", cnt);
 }
-static void op_http_qry(const uint8_t *in, size_t n) {
+static void op_http_qry(const uint8_t *in, size_t n, long ph) {
 	uint8_t *b = xdup(0, in, n), *c; const uint8_t *nm = NULL, *v = NULL; size_t vs = 0, newsz = n, del; int rc;
-	FN("http_query_val_get_ex");
-	rc = http_query_val_get_ex(b, n, (const uint8_t*)"a", 1, &nm, &v, &vs);
-	if (rc == 0) { chk_span("http_query_val_get_ex", "name", b, n, nm, 1); chk_span("http_query_val_get_ex", "value", b, n, v, vs); }
+	if (ph == 0) {
+		FN("http_query_val_get_ex");
+		rc = http_query_val_get_ex(b, n, (const uint8_t*)"a", 1, &nm, &v, &vs);
+		if (rc == 0) { chk_span("http_query_val_get_ex", "name", b, n, nm, 1); chk_span("http_query_val_get_ex", "value", b, n, v, vs); }
+		printf(" rc=%d", rc); return;
+	}
 	c = xdup(1, in, n);
 	FN("http_query_val_del");
 	del = http_query_val_del(c, n, (const uint8_t*)"a", 1, &newsz);
 	chk_le("http_query_val_del", "new_size", newsz, n);
-	printf(" rc=%d del=%zu newsz=%zu", rc, del, newsz);
+	printf(" del=%zu newsz=%zu", del, newsz);
 }
 static void op_http_chk(const uint8_t *in, size_t n) {
 	uint8_t *b = xdup(0, in, n), *ret = NULL; size_t rs = 0; int rc;
@@ -360,36 +395,45 @@ static void op_http_url(const uint8_t *in, size_t n, long cap) {
 	else if (r != 0) span_fail("http_url_decode", "length");
 	printf(" n=%zu", r);
 }
-static void op_wsp(const uint8_t *in, size_t n) {
+/* ph 0: skip_spwsp; 1: skip_spwsp2 (pointer and size); 2: skip_spwsp2 (size only); 3: wsp2sp; 4: ht2sp */
+static void op_wsp(const uint8_t *in, size_t n, long ph) {
 	uint8_t *b = xdup(0, in, n), *c, *out; const uint8_t *r = NULL; size_t rs = 0, os = 0; int rc;
-	FN("skip_spwsp");
-	skip_spwsp(b, n, &r, &rs);
-	chk_span("skip_spwsp", "ret", b, n, r, rs);
-	r = NULL; rs = 0;
-	FN("skip_spwsp2");
-	skip_spwsp2(b, n, &r, &rs);
-	chk_span("skip_spwsp2", "ret", b, n, r, rs);
-	rs = 0;
-	skip_spwsp2(b, n, NULL, &rs);
-	chk_le("skip_spwsp2", "size-only", rs, n);
-	c = xdup(1, in, n); out = xbuf(2, n);
-	FN("wsp2sp");
-	rc = wsp2sp(c, n, out, &os);
-	if (rc == 0) chk_le("wsp2sp", "size", os, n);
-	c = xdup(1, in, n); out = xbuf(2, n);
-	FN("ht2sp");
-	os = 0; rc = ht2sp(c, n, out, &os);
-	if (rc == 0) chk_le("ht2sp", "size", os, n);
+	if (ph == 0) {
+		FN("skip_spwsp");
+		skip_spwsp(b, n, &r, &rs);
+		chk_span("skip_spwsp", "ret", b, n, r, rs);
+	} else if (ph == 1) {
+		FN("skip_spwsp2");
+		skip_spwsp2(b, n, &r, &rs);
+		chk_span("skip_spwsp2", "ret", b, n, r, rs);
+	} else if (ph == 2) {
+		FN("skip_spwsp2");
+		skip_spwsp2(b, n, NULL, &rs);
+		chk_le("skip_spwsp2", "size-only", rs, n);
+	} else if (ph == 3) {
+		c = xdup(1, in, n); out = xbuf(2, n);
+		FN("wsp2sp");
+		rc = wsp2sp(c, n, out, &os);
+		if (rc == 0) chk_le("wsp2sp", "size", os, n);
+	} else {
+		c = xdup(1, in, n); out = xbuf(2, n);
+		FN("ht2sp");
+		rc = ht2sp(c, n, out, &os);
+		if (rc == 0) chk_le("ht2sp", "size", os, n);
+	}
 	printf(" ok=1");
 }
 
 /* ------------------------------------------------------------------ SDP / SAP / RTP / MPEG-TS */
-static void op_sdp(const uint8_t *in, size_t n) {
-	uint8_t *b = xdup(0, in, n); int sec; size_t found = 0;
+/* ph 0: sdp_msg_sec_chk; 1: sdp_msg_type_get over all lines; 2: sdp_msg_feilds_get */
+static void op_sdp(const uint8_t *in, size_t n, long ph) {
+	uint8_t *b = xdup(0, in, n); int sec = -1; size_t found = 0;
 	static const uint8_t types[] = { 'v', 'm', 'a' };
-	FN("sdp_msg_sec_chk");
-	sec = sdp_msg_sec_chk(b, n);
-	for (size_t k = 0; k < sizeof(types); k++) {
+	if (ph == 0) {
+		FN("sdp_msg_sec_chk");
+		sec = sdp_msg_sec_chk(b, n);
+	}
+	for (size_t k = 0; k < sizeof(types) && ph == 1; k++) {
 		size_t line = 0, iter;
 		for (iter = 0; iter <= n + 2; iter++) {
 			uint8_t *v = NULL; size_t vs = 0;
@@ -400,7 +444,7 @@ static void op_sdp(const uint8_t *in, size_t n) {
 		}
 		if (iter > n + 2) span_fail("sdp_msg_type_get", "no-progress");
 	}
-	{
+	if (ph == 2) {
 		uint8_t *f[4] = { 0 }; size_t fs[4] = { 0 }, cnt;
 		FN("sdp_msg_feilds_get");
 		cnt = sdp_msg_feilds_get(b, n, 4, f, fs);
@@ -427,17 +471,22 @@ static void op_rtp(const uint8_t *in, size_t n) {
 	if (rc == 0) { chk_le("rtp_payload_get", "start", s, n); chk_le("rtp_payload_get", "start+end", s + e, n); }
 	printf(" rc=%d start=%zu end=%zu", rc, s, e);
 }
-static void op_ts(const uint8_t *in, size_t n) {
-	uint8_t *p = xdup(0, in, n), *pk = NULL; int v, g0, g1 = 0, rc = -1; size_t ps = 0;
-	FN("mpeg2_ts_pkt_is_valid");
-	v = mpeg2_ts_pkt_is_valid((const mpeg2_ts_hdr_t*)p, n);
-	FN("mpeg2_ts_pkt_get_next");
-	g0 = mpeg2_ts_pkt_get_next(p, n, 0, 188, &pk);
-	if (g0) chk_span("mpeg2_ts_pkt_get_next", "pkt", p, n, pk, 188);
-	if (n >= 1) { pk = NULL; g1 = mpeg2_ts_pkt_get_next(p, n, 1, 188, &pk); if (g1) chk_span("mpeg2_ts_pkt_get_next", "pkt@1", p, n, pk, 188); }
-	FN("mpeg2_ts_pkt_size_detect");
-	rc = mpeg2_ts_pkt_size_detect(p, n, &ps);
-	if (rc == 0 && !(ps == 188 || ps == 192 || ps == 204 || ps == 208)) span_fail("mpeg2_ts_pkt_size_detect", "size");
+/* ph 0: mpeg2_ts_pkt_is_valid (the buffer is the packet); 1: mpeg2_ts_pkt_get_next; 2: mpeg2_ts_pkt_size_detect */
+static void op_ts(const uint8_t *in, size_t n, long ph) {
+	uint8_t *p = xdup(0, in, n), *pk = NULL; int v = -1, g0 = -1, g1 = -1, rc = -1; size_t ps = 0;
+	if (ph == 0) {
+		FN("mpeg2_ts_pkt_is_valid");
+		v = mpeg2_ts_pkt_is_valid((const mpeg2_ts_hdr_t*)p, n);
+	} else if (ph == 1) {
+		FN("mpeg2_ts_pkt_get_next");
+		g0 = mpeg2_ts_pkt_get_next(p, n, 0, 188, &pk);
+		if (g0) chk_span("mpeg2_ts_pkt_get_next", "pkt", p, n, pk, 188);
+		if (n >= 1) { pk = NULL; g1 = mpeg2_ts_pkt_get_next(p, n, 1, 188, &pk); if (g1) chk_span("mpeg2_ts_pkt_get_next", "pkt@1", p, n, pk, 188); }
+	} else {
+		FN("mpeg2_ts_pkt_size_detect");
+		rc = mpeg2_ts_pkt_size_detect(p, n, &ps);
+		if (rc == 0 && !(ps == 188 || ps == 192 || ps == 204 || ps == 208)) span_fail("mpeg2_ts_pkt_size_detect", "size");
+	}
 	printf(" valid=%d next0=%d next1=%d det=%d ps=%zu", v, g0, g1, rc, ps);
 }
 
@@ -452,23 +501,31 @@ static void run_case(size_t idx) {
 	shm->idx = (long)idx; FN("driver");
 	printf("R %zu %s", idx, op);
 	alarm(5);
+	if (sigsetjmp(fault_jb, 1) != 0) {
+		alarm(0);
+		printf("\n%sX %zu fn=%s st=fault\n", fault_msg, idx, shm->fn);
+		free(in); free(hex);
+		return;
+	}
+	fault_jb_armed = 1;
 	if (!strcmp(op, "dns_name")) op_dns_name(in, n, a1, a2);
-	else if (!strcmp(op, "dns_lbl")) op_dns_lbl(in, n);
-	else if (!strcmp(op, "dns_msg")) op_dns_msg(in, n);
-	else if (!strcmp(op, "rad")) op_rad(in, n);
+	else if (!strcmp(op, "dns_lbl")) op_dns_lbl(in, n, a1);
+	else if (!strcmp(op, "dns_msg")) op_dns_msg(in, n, a1);
+	else if (!strcmp(op, "rad")) op_rad(in, n, a1);
 	else if (!strcmp(op, "dhcp")) op_dhcp(in, n);
 	else if (!strcmp(op, "http_req")) op_http_req(in, n);
 	else if (!strcmp(op, "http_resp")) op_http_resp(in, n);
-	else if (!strcmp(op, "http_hdr")) op_http_hdr(in, n);
-	else if (!strcmp(op, "http_qry")) op_http_qry(in, n);
+	else if (!strcmp(op, "http_hdr")) op_http_hdr(in, n, a1);
+	else if (!strcmp(op, "http_qry")) op_http_qry(in, n, a1);
 	else if (!strcmp(op, "http_chk")) op_http_chk(in, n);
 	else if (!strcmp(op, "http_url")) op_http_url(in, n, a1);
-	else if (!strcmp(op, "wsp")) op_wsp(in, n);
-	else if (!strcmp(op, "sdp")) op_sdp(in, n);
+	else if (!strcmp(op, "wsp")) op_wsp(in, n, a1);
+	else if (!strcmp(op, "sdp")) op_sdp(in, n, a1);
 	else if (!strcmp(op, "sap")) op_sap(in, n);
 	else if (!strcmp(op, "rtp")) op_rtp(in, n);
-	else if (!strcmp(op, "ts")) op_ts(in, n);
+	else if (!strcmp(op, "ts")) op_ts(in, n, a1);
 	else printf(" unknown-op");
+	fault_jb_armed = 0;
 	alarm(0);
 	if (span_msg[0]) printf(" span=%s", span_msg);
 	printf("\n");
@@ -476,7 +533,7 @@ static void run_case(size_t idx) {
 }
 
 int main(int argc, char **argv) {
-	char *buf = NULL; size_t cap = 0; ssize_t r; size_t start = 0;
+	char *buf = NULL; size_t cap = 0; ssize_t r; size_t start = 0; long budget = 0, crashes = 0;
 	if (argc > 1) mode = !strcmp(argv[1], "ghi") ? M_GHI : !strcmp(argv[1], "glo") ? M_GLO : M_HEAP;
 	while ((r = getline(&buf, &cap, stdin)) > 0) {
 		if (buf[r - 1] == '\n') buf[r - 1] = 0;
@@ -489,6 +546,8 @@ int main(int argc, char **argv) {
 	dup2(1, 2);                                  /* sanitizer reports go to the same stream, in order */
 	setvbuf(stdout, NULL, _IOLBF, 1 << 16);
 	dhcp4_static_init();
+	if (mode != M_HEAP) slots_init();
+	if (argc > 2) budget = atol(argv[2]);
 	while (start < nlines) {
 		pid_t pid; int st = 0;
 		fflush(stdout);
@@ -496,7 +555,6 @@ int main(int argc, char **argv) {
 		pid = fork();
 		if (pid < 0) return 3;
 		if (pid == 0) {
-			if (mode != M_HEAP) slots_init();
 			install_handlers();
 			for (size_t i = start; i < nlines; i++) run_case(i);
 			fflush(stdout);
@@ -511,6 +569,7 @@ int main(int argc, char **argv) {
 			printf("\nX %ld fn=%s st=%s%d\n", bad, shm->fn[0] ? shm->fn : "driver",
 			    WIFSIGNALED(st) ? "sig" : "exit", WIFSIGNALED(st) ? WTERMSIG(st) : WEXITSTATUS(st));
 			start = (size_t)bad + 1;
+			if (budget > 0 && ++crashes >= budget && start < nlines) { printf("T %zu\n", start); break; }
 		}
 	}
 	fflush(stdout);
